@@ -144,6 +144,7 @@ def Case.expDial (c : Case) : Str :=
   match c.dial with
   | .none => joinHostPort c.host.bare (c.port.getD c.scheme.defaultPort)
   | .host h p => joinHostPort h.bare (p.getD c.scheme.defaultPort)
+  | .bracketed x => joinHostPort x c.scheme.defaultPort
   | .unix n => '@' :: n
   | .raw s => getDialAddr (Dial.render (.host c.host c.port)) s c.scheme.defaultPort
 
@@ -193,6 +194,10 @@ theorem getDialAddr_case {c : Case} (w : c.wf = true) :
     have wd := f.dial
     simp only [hd, Dial.wf, Bool.and_eq_true] at wd
     simpa [Case.expDial, hd] using getDialAddr_override _ c.scheme.defaultPort wd.1 wd.2
+  | bracketed x =>
+    have wd := f.dial
+    simp only [hd, Dial.wf] at wd
+    simpa [Case.expDial, hd, Dial.render] using getDialAddr_bracketed _ c.scheme.defaultPort wd
   | unix n => simp [Case.expDial, hd, Dial.render, getDialAddr_unix]
   | raw s => simp [Case.expDial, hd, Dial.render]
 
@@ -205,6 +210,12 @@ theorem network_case {c : Case} (w : c.wf = true) (hs : c.scheme.stream = true) 
     have wd := f.dial
     simp only [hd, Dial.wf, Bool.and_eq_true] at wd
     simp [Case.expDial, Case.expNet, hd, hs, dialNetworkTcpOrUnix, join_no_at _ wd.1]
+  | bracketed x =>
+    have wd := f.dial
+    simp only [hd, Dial.wf] at wd
+    have := join_no_at (h := .v6 x) c.scheme.defaultPort (by simpa [Host.wf] using wd)
+    simp only [Host.bare] at this
+    simp [Case.expDial, Case.expNet, hd, hs, dialNetworkTcpOrUnix, this]
   | unix n => simp [Case.expDial, Case.expNet, hd, hs, dialNetworkTcpOrUnix, hasAtPrefix]
   | raw s => simp [Case.expDial, Case.expNet, hd, hs]
 
